@@ -581,7 +581,7 @@ fn invalid_op(rng: &mut Rng, codec: VCodec, acodec: Option<ACodec>, now: f64, fi
         6 => Op::Audio { pts: F(near(rng)), data: Hex(vec![]) },
         7 => {
             let f = frames::build_audio(rng, ac, next_stamp(), 16, k.decorate);
-            let how = *rng.pick(&[Mangle::Truncate, Mangle::BitFlip, Mangle::Random, Mangle::BitFlip]);
+            let how = *rng.pick(&[Mangle::Truncate, Mangle::BitFlip, Mangle::Random, Mangle::BitFlip, if ac == ACodec::Opus { Mangle::BitFlip } else { Mangle::AdtsField }]);
             let d = frames::mangle(rng, &f.data, how);
             Op::Audio { pts: F(near(rng)), data: Hex(d) }
         }
@@ -593,7 +593,8 @@ fn invalid_op(rng: &mut Rng, codec: VCodec, acodec: Option<ACodec>, now: f64, fi
         9 => Op::EncVideo { data: Hex(if rng.chance(1, 3) { vec![] } else { good_v(rng, FrameShape::Delta, next_stamp()).data }), dur_ms: *rng.pick(&[0u32, 1, 33, u32::MAX]), cc: false },
         10 => {
             let f = frames::build_audio(rng, ac, next_stamp(), 16, k.decorate);
-            let d = if rng.chance(1, 3) { frames::mangle(rng, &f.data, Mangle::BitFlip) } else { f.data };
+            let how = if ac != ACodec::Opus && rng.bool() { Mangle::AdtsField } else { Mangle::BitFlip };
+            let d = if rng.chance(1, 3) { frames::mangle(rng, &f.data, how) } else { f.data };
             Op::EncAudio { data: Hex(d), samples: *rng.pick(&[0u32, 960, 1024, u32::MAX]) }
         }
         11 => {
